@@ -115,8 +115,10 @@ class Unit:
     def __init__(self, id, fn, pre=None, post=None, replace=(), cfg='abacus', backends=('sat',), timeout=120,
                  tier='quick', cxx=None, note='', split=False, loop_contracts=None, ghost=None, extra_flags=(),
                  lemma=False, requires_extra=(), ensures_extra=(), no_canary=False, ub_only=False, unwind=None,
-                 object_bits=None, defines=(), link_src=False, expect_props=(), engine='bv', prelude='', replace_raw=(), needs=(), bounded=None, native_post=None, assigns_extra=(), cut_check=None):
+                 object_bits=None, defines=(), link_src=False, expect_props=(), engine='bv', prelude='', replace_raw=(), needs=(), bounded=None, native_post=None, assigns_extra=(), cut_check=None, role_binder=None, role_fn=None):
         self.engine = engine
+        self.role_fn = role_fn
+        self.role_binder = role_binder
         self.assigns_extra = list(assigns_extra)
         self.cut_check = cut_check
         self.native_post = native_post
@@ -228,10 +230,20 @@ def emit_unit(unit, outdir):
     """extract the C program for one unit; returns dict with paths and metadata"""
     ast = get_ast(unit.cfg)
     ex = X.Extractor(ast)
+    roles = {}
+    if unit.role_binder:
+        # loop invariants / ghost code name the function's locals by ROLE; the roles are bound to the actual names by
+        # pattern matching on the AST, so that renaming a local is not a reason for exit 2 (and never for an alarm)
+        roles = unit.role_binder(ast.fn_def_by_mangled.get(unit.role_fn or unit.fn)) or {}
+
+    def bind_roles(txt):
+        for k, v in roles.items():
+            txt = txt.replace('{%s}' % k, v)
+        return txt
     for key, txt in unit.loop_contracts.items():
-        ex.loop_contracts[(X.cname_of(unit.fn), key)] = txt
+        ex.loop_contracts[(X.cname_of(unit.fn), key)] = bind_roles(txt)
     for key, txt in unit.ghost.items():
-        ex.ghost[(X.cname_of(key[0]), key[1])] = txt
+        ex.ghost[(X.cname_of(key[0]), key[1])] = bind_roles(txt)
     cn = ex.require_mangled(unit.fn)
     needed = [unit.pre, unit.post] + unit.needs
     for (g, gpre, gpost) in unit.replace:
@@ -268,6 +280,8 @@ def emit_unit(unit, outdir):
         # (function, if ordinal, names that must NOT be referenced after that statement)
         cfn, iford, forbidden = unit.cut_check
         ex.require_mangled(cfn)
+        if forbidden == 'PARAMS':
+            forbidden = [c['name'] for c in X.kids(ast.fn_def_by_mangled[cfn]) if c.get('kind') == 'ParmVarDecl']
         after = ex.names_referenced_after_if(X.cname_of(cfn), iford)
         bad = sorted(set(forbidden) & after)
         if bad:
